@@ -10,8 +10,11 @@
 package main
 
 import (
+	"bytes"
+	"encoding/xml"
 	"fmt"
 	"hash/crc64"
+	"io"
 	"math"
 	"math/big"
 	"math/rand"
@@ -1243,6 +1246,126 @@ func (h *harness) baseURLSweep(assets []*lib.TLAsset) {
 	}
 }
 
+// periodBaseURLs returns, for every Period of an MPD, the texts of its BaseURL children.
+func periodBaseURLs(body []byte) (out [][]string, err error) {
+	dec := xml.NewDecoder(bytes.NewReader(body))
+	var stack []string
+	cur := -1
+	for {
+		tok, e := dec.Token()
+		if e == io.EOF {
+			return out, nil
+		}
+		if e != nil {
+			return out, e
+		}
+		switch t := tok.(type) {
+		case xml.StartElement:
+			stack = append(stack, t.Name.Local)
+			if t.Name.Local == "Period" && len(stack) == 2 {
+				out = append(out, nil)
+				cur = len(out) - 1
+			}
+		case xml.EndElement:
+			stack = stack[:len(stack)-1]
+		case xml.CharData:
+			if len(stack) == 3 && stack[1] == "Period" && stack[2] == "BaseURL" && cur >= 0 {
+				out[cur] = append(out[cur], string(t))
+			}
+		}
+	}
+}
+
+// mpdShapeSweep: the MPD side of traffic_ under every MPD shape - one or several Periods, the three
+// addressing modes, the MPD variants of the asset (subtitles, thumbnails, endNumber), generated
+// subtitles, availabilityTimeOffset: EVERY Period offers exactly one BaseURL per pattern, bu0/ bu1/ ... in
+// order, and a segment requested behind each of them is answered as the state of its pattern says.
+func (h *harness) mpdShapeSweep(a *lib.TLAsset) {
+	c := h.c
+	r := a.Ref()
+	segMS := (r.Segs[0].End - r.Segs[0].Start) * 1000 / r.Timescale
+	mpds := []string{"Manifest.mpd", "Manifest_imsc1.mpd", "Manifest_thumbs.mpd", "Manifest_endNumber.mpd"}
+	shapes := []string{"", "periods_60/", "periods_120/", "periods_60/continuous_1/", "timesubsstpp_en,sv/", "ato_1/", "periods_120/timesubswvtt_en/", "START/periods_60/"}
+	pats := []string{"u1d1,d1u1", "u2d3,d1u1,u1"}
+	k := 0
+	for si, shape := range shapes {
+		for _, mode := range []string{"number", "tlnr", "tlt"} {
+			for mi, mpdName := range mpds {
+				if !c.Thorough() && (si+mi)%2 == 1 && mi > 0 {
+					continue
+				}
+				k++
+				p := pats[k%len(pats)]
+				nPat := strings.Count(p, ",") + 1
+				cfg := lib.TLCfg{Snr: -1, Tsbd: -1, Mode: mode, Extra: shape + "traffic_" + p + "/"}
+				if strings.HasPrefix(shape, "START/") { // a start time and a start number
+					cfg.StartS, cfg.Snr, cfg.Extra = 1000, 4, strings.TrimPrefix(shape, "START/")+"traffic_"+p+"/"
+				}
+				now := int64(1000000+1000*k) + 140000 + 437
+				url := fmt.Sprintf("/livesim2/%s%s/%s?nowMS=%d", cfg.URLPrefix(), a.Path, mpdName, now)
+				resp := h.get(url)
+				id := fmt.Sprint(h.id())
+				h.nEval++
+				in := c14in{Kind: "base", Domain: "ok", Asset: a.Path, Cfg: &cfg, Pattern: p, NowMS: now, URL: url}
+				c.Res.Inputs[id] = in
+				periods, err := periodBaseURLs(resp.Body)
+				c.Count(fmt.Sprintf("mpd-shape/%s%s/periods=%d", shape, mode, len(periods)))
+				what := ""
+				switch {
+				case resp.Status != 200 || err != nil || len(periods) == 0:
+					what = fmt.Sprintf("status %d %s, %d Periods, parse error %v", resp.Status, resp.Panic, len(periods), err)
+				default:
+					for pi, got := range periods {
+						ok := len(got) == nPat
+						for i := 0; ok && i < nPat; i++ {
+							ok = got[i] == fmt.Sprintf("bu%d/", i)
+						}
+						if !ok && what == "" {
+							what = fmt.Sprintf("Period %d of %d offers BaseURLs %v, expected bu0/ .. bu%d/", pi+1, len(periods), got, nPat-1)
+						}
+					}
+				}
+				if what != "" {
+					c.Fail(id, "baseurls", fmt.Sprintf("MPD %s: %s", url, what), in)
+				} else {
+					h.dist["mpd-shape/"+url] = true
+				}
+				for pi, got := range periods {
+					var q []string
+					for _, g := range got {
+						q = append(q, lib.CoqString(g))
+					}
+					pid := id
+					if pi > 0 {
+						pid = fmt.Sprint(h.id())
+						c.Res.Inputs[pid] = in
+					}
+					h.terms = append(h.terms, fmt.Sprintf("CBase %s %s %d [%s]", pid, lib.Zbytes([]byte(p)), resp.Status, strings.Join(q, "; ")))
+				}
+				// a segment behind every BaseURL of this configuration
+				prefix := strings.TrimSuffix(cfg.URLPrefix(), "traffic_"+p+"/")
+				n := (now-cfg.StartS*1000)/segMS - 2
+				file := fmt.Sprintf("%d.m4s", cfg.EffSnr()+n)
+				if mode == "tlt" {
+					file = fmt.Sprintf("%d.m4s", r.LoopS(n))
+				}
+				for i, comp := range strings.Split(p, ",") {
+					fl := flatten(parsePat(comp))
+					surl, plain, strip, segPart := trafficURLMode(a, prefix, p, fmt.Sprintf("bu%d/", i), r.ID, file, now)
+					q := &trafficReq{in: c14in{Kind: "traffic", Domain: "ok", Asset: a.Path, Rep: r.ID, Pattern: p, BU: i, SegPart: segPart, Prefix: prefix, File: file, N: n, NowMS: now, URL: surl},
+						url: surl, plainURL: plain, stripURL: strip, want: fl[(now/1000)%int64(len(fl))], toCoq: true, id: fmt.Sprint(h.id())}
+					h.nEval++
+					c.Count("mpd-shape/segment/" + string(rune(q.want)))
+					t0 := time.Now()
+					q.resp = h.get(q.url)
+					q.elapsed = time.Since(t0)
+					h.finishTraffic(q)
+				}
+			}
+		}
+	}
+}
+
 // ---------------------------------------------------------------- loss intervals (exported API)
 
 func (h *harness) lossCase(pattern string, secs []int64, structured []itvl, toCoq bool) {
@@ -1538,6 +1661,7 @@ func run(c *lib.Ctx) error {
 	t3 := time.Now()
 	if on("b") {
 		h.baseURLSweep(assets[:2])
+		h.mpdShapeSweep(assets[0])
 	}
 	if on("l") {
 		h.lossSweep()
@@ -1548,7 +1672,7 @@ func run(c *lib.Ctx) error {
 	c.Res.Evaluations = h.nEval
 	c.Res.ModelCases = len(h.terms)
 	c.Res.DistinctNontrivial = len(h.dist)
-	c.Res.Rule = "statuscode_ combined with every other timing/addressing family (ato below/equal/above a segment and inf, tsbd, chunked mode, periods, start, snr, $Time$) and every track kind (video, audio, stored text, thumbnails, generated subtitles); statuscode_: bundled assets (1, 2, 4, ... segments; 2 s, 6 s, 8 s, alternating, 2.002 s) x cycle {3,5,8,30,31} x every rsq up to the number of segments per cycle x every segment over >= 6 cycles; representation filters (*, video id, audio id, no match), video and audio, Number / Timeline-Number / Timeline-Time, two and three simultaneous patterns; start_30, snr_7, start_1000/snr_3 (findings stream); calcStatusCode on random synthetic tables (1-6 segments, irregular durations, 5 timescales). traffic_: every state (up, down, slow, hang) crossed with every delivery mode (chunked low latency video/audio, audio, encrypted, generated subtitles, stored text, thumbnails, $Time$, ato/tsbd); every pattern of 1-4 intervals over {u,d} with durations 1-3 at every second of 3 cycles, three patterns per URL selected by bu<i>; s/h patterns recognised by their delay; all patterns over {u,d,s,h} and random strings through CreateLossItvls/StateAt; BaseURL elements of the MPD. distinct = distinct (configuration, request) pairs for which the oracle confirmed the prescribed answer"
+	c.Res.Rule = "statuscode_ combined with every other timing/addressing family (ato below/equal/above a segment and inf, tsbd, chunked mode, periods, start, snr, $Time$) and every track kind (video, audio, stored text, thumbnails, generated subtitles); statuscode_: bundled assets (1, 2, 4, ... segments; 2 s, 6 s, 8 s, alternating, 2.002 s) x cycle {3,5,8,30,31} x every rsq up to the number of segments per cycle x every segment over >= 6 cycles; representation filters (*, video id, audio id, no match), video and audio, Number / Timeline-Number / Timeline-Time, two and three simultaneous patterns; start_30, snr_7, start_1000/snr_3 (findings stream); calcStatusCode on random synthetic tables (1-6 segments, irregular durations, 5 timescales). traffic_: every state (up, down, slow, hang) crossed with every delivery mode (chunked low latency video/audio, audio, encrypted, generated subtitles, stored text, thumbnails, $Time$, ato/tsbd); every pattern of 1-4 intervals over {u,d} with durations 1-3 at every second of 3 cycles, three patterns per URL selected by bu<i>; s/h patterns recognised by their delay; all patterns over {u,d,s,h} and random strings through CreateLossItvls/StateAt; BaseURL elements of every Period of the MPD under every MPD shape (1..3 Periods, continuous, three addressing modes, MPD variants with subtitles/thumbnails/endNumber, generated subtitles, ato, start/snr) and a segment behind each BaseURL. distinct = distinct (configuration, request) pairs for which the oracle confirmed the prescribed answer"
 	keys := make([]string, 0, len(c.Res.Inputs))
 	for k := range c.Res.Inputs {
 		keys = append(keys, k)
